@@ -23,6 +23,7 @@ typedef struct HState {
 	char failmsg[300];
 } HState;
 
+int io_roundtrip_check (mpq_QSprob p, const RefLP * M, const char *fname, const char *fmt, char *why, size_t wl);   /* h_io.c */
 #define NSTART 10
 static const char *start_name[NSTART] = { "empty", "1x1", "testsuite3x2", "ranged2x2", "degenerate3x3", "infeasible2x2", "singleton3x3", "mip3x2-read", "slackrows2x2", "slackends3x2" };
 
@@ -432,7 +433,14 @@ static void apply_op (HState * S, Trans t)
 		if (t.op == OP_WRITE_READ_LOAD_BASIS) CALL (mpq_QSread_and_load_basis (p, "h.bas"));
 		break;
 	}
-	case OP_WRITE_PROB: CALL (mpq_QSwrite_prob (p, v ? "h.mps" : "h.lp", v ? "MPS" : "LP")); break;
+	case OP_WRITE_PROB: {
+		int wr = mpq_QSwrite_prob (p, v ? "h.mps" : "h.lp", v ? "MPS" : "LP");
+		if (wr) CALL (wr);
+		char w[700];
+		if (io_roundtrip_check (p, M, v ? "h.mps" : "h.lp", v ? "MPS" : "LP", w, sizeof w))
+			viol (v ? "C09" : "C08", v ? "hist-roundtrip-MPS" : "hist-roundtrip-LP", "%s [history: %s]", w, S->desc.s);
+		break;
+	}
 	case OP_COPY_CONT: case OP_COPY_FREE: {
 		mpq_QSprob q = mpq_QScopy_prob (p, "copy");
 		if (!q) { S->failed_valid = 1; snprintf (S->failmsg, sizeof S->failmsg, "mpq_QScopy_prob returned NULL"); break; }
